@@ -215,6 +215,8 @@ class LoopInv:
     out: z3.ExprRef | None = None                   # generators: yielded sequence so far
     defs: list = field(default_factory=list)        # definitional unfoldings of spec functions (schemas; assumed, never checked)
     ground_defs: list = field(default_factory=list)  # the same, ground
+    supersedes: bool = False          # this invariant restates everything the enclosing loops' invariants said: their quantified
+                                      # hypotheses are dropped when this one is assumed (fewer hypotheses: always sound)
 
 
 class Registry:
